@@ -440,9 +440,104 @@ def check_ray_hits(ctx, db, f):
     ctx.check(bad is None, 'R-TABLE', 'link_holes/ray-hits', cand.loc(), 'over all 27 orderings the crossing branch is taken exactly for edges the ray crosses or whose end vertex it passes through', bad)
 
 
+def check_link_holes_model(ctx, db):
+    """link_holes interpreted (sa/minieval: std::vector paths with iterators, the hole records, gdstk::sort answered by a sort that
+    calls the interpreted comparator) on small integer scenes: a square, a diamond and a wide rectangle, each with every choice of
+    the contour's first vertex, holding one or two holes given from every one of their vertices (so that the edge to the left of a hole
+    is the closing edge of the contour for some choice, and the hole path starts away from its lowest-leftmost vertex for others).
+    Required: no error; every vertex of contour and holes is in the result; the signed area of the linked contour is the contour's plus
+    the (opposite) holes' - a bridge that is walked out and back adds nothing, a bridge point set anywhere but on the hit edge does."""
+    import functools
+    from .. import minieval as M
+    f = db.fn('gdstk::link_holes')
+    ctx.touch(f)
+    pl = db.fn('gdstk::path_less', required=False)
+
+    def area2(ps):
+        return sum(ps[i - 1][0] * ps[i][1] - ps[i][0] * ps[i - 1][1] for i in range(len(ps)))
+
+    def run(outer, holes):
+        mk = lambda ps: M.Vector([M.Obj(X=x, Y=y) for x, y in ps])
+        node = M.Obj(Contour=mk(outer), Childs=M.Vector([M.Obj(Contour=mk(h), Childs=M.Vector([])) for h in holes]))
+        ref = [None]
+
+        def extra(callee, args, n_):
+            short = (callee or '').split('::')[-1]
+            if short == 'ChildCount':
+                return (len(ref[0].call_object()['Childs'].lst),)
+            if short == 'llround':
+                import math
+                v = args[0]
+                return (int(math.floor(abs(v) + 0.5)) * (1 if v >= 0 else -1),)
+            if short in ('fprintf', 'fputs'):
+                return (0,)
+            if short == 'sort' and len(args) == 2 and isinstance(args[0], M.Obj) and isinstance(args[1], tuple) and args[1][0] == 'function':
+                cmpf = db.fn(args[1][1], required=False) or pl
+                if cmpf is None:
+                    raise AnalysisBroken('link_holes: comparator of sort() not found')
+                arr = args[0]
+                it, cnt = arr['items'], arr['count']
+
+                def less(x, y):
+                    m2 = M.Mini(db, hook=extra, budget=20000)
+                    m2.obj_store = True
+                    try:
+                        m2.run(cmpf.body, {cmpf.params[0]['n']: x, cmpf.params[1]['n']: y})
+                    except M.Return as r_:
+                        return bool(r_.v)
+                    return False
+                lst = sorted(it.arr[it.i:it.i + cnt], key=functools.cmp_to_key(lambda a, b: -1 if less(a, b) else (1 if less(b, a) else 0))) if cnt else []
+                if cnt:
+                    it.arr[it.i:it.i + cnt] = lst
+                return (None,)
+            return None
+        mi = M.Mini(db, hook=M.array_hook(ref, extra), budget=400000, globals={'error_logger': 0})
+        mi.obj_store = True
+        ref[0] = mi
+        env = {f.params[0]['n']: node, f.params[1]['n']: 0}
+        try:
+            mi.run(f.body, env)
+        except M.Return:
+            pass
+        return env[f.params[1]['n']], [(p_['X'], p_['Y']) for p_ in node['Contour'].lst]
+    rot = lambda ps, k: ps[k:] + ps[:k]
+    scenes = []
+    sq, hole = [(0, 0), (10, 0), (10, 10), (0, 10)], [(3, 3), (3, 6), (6, 6), (6, 3)]
+    for a in range(4):
+        for b in range(4):
+            scenes.append(('square, contour from vertex %d, hole from vertex %d' % (a, b), rot(sq, a), [rot(hole, b)]))
+    dia, tri = [(-12, 0), (0, -12), (12, 0), (0, 12)], [(3, -2), (-3, -2), (0, 4)]
+    for a in range(4):
+        for b in range(3):
+            scenes.append(('diamond, contour from vertex %d, triangular hole from vertex %d' % (a, b), rot(dia, a), [rot(tri, b)]))
+    rect, h1, h2 = [(0, 0), (20, 0), (20, 10), (0, 10)], [(3, 3), (3, 6), (6, 6), (6, 3)], [(12, 2), (12, 8), (15, 8), (15, 2)]
+    for a in range(4):
+        for b in range(4):
+            scenes.append(('rectangle, contour from vertex %d, two holes (first from vertex %d)' % (a, b), rot(rect, a), [rot(h1, b), h2]))
+    scenes.append(('square with a hole whose lowest vertex is level with a contour vertex', [(0, 0), (10, 0), (10, 10), (0, 10), (-4, 3)], [[(3, 3), (3, 6), (6, 6), (6, 3)]]))
+    bad = []
+    for label, outer, holes in scenes:
+        if area2(outer) < 0 or any(area2(h_) > 0 for h_ in holes):
+            raise AnalysisBroken('link_holes model: scene `%s` has the wrong orientations' % label)
+        try:
+            err, res = run(outer, holes)
+        except M.OutOfBounds as ex:
+            bad.append('%s: %s' % (label, ex))
+            continue
+        want = area2(outer) + sum(area2(h_) for h_ in holes)
+        missing = [p_ for p_ in outer + [q for h_ in holes for q in h_] if p_ not in res]
+        if err or missing or area2(res) != want:
+            bad.append('%s: error code %s, linked contour %s has twice the signed area %s (contour + holes: %s)%s' % (label, err, res, area2(res), want, (', vertices lost: %s' % missing[:3]) if missing else ''))
+    ctx.explored['valuations'] += len(scenes)
+    ctx.check(not bad, 'R-MODEL.link_holes', 'link_holes/keyhole-preserves-region', f.loc(), 'interpreted on %d scenes: every hole is linked without error, no vertex is lost and the signed area is contour + holes' % len(scenes),
+              'hole linking is wrong: ' + '; '.join(bad[:2]))
+    ctx.require('R-MODEL.link_holes scenes interpreted', len(scenes), 40)
+
+
 def run(ctx):
     db = ctx.db
     _DB['db'] = db
+    ctx.memo('link_holes', {'src/clipper_tools.cpp', 'include/gdstk/sort.hpp'}, check_link_holes_model, db)
     from . import C14, C20
     ctx.attempt(C14.check_translation_invariance, ctx, db)# polygon_to_path orients operands by the sign of signed_area
     ctx.attempt(C20.check_heap, ctx, db)# link_holes orders the holes of a contour with gdstk::sort
